@@ -320,18 +320,7 @@ func c16cBody(c *run.Ctx) {
 		close(start)
 		wg.Wait()
 		// quiescence: nothing more is published once the accepted moves have been processed
-		stable := 0
-		last := -1
-		for stable < 3 {
-			time.Sleep(2 * time.Millisecond)
-			cur := s.EventsTotal() + s.BE.NumCalls()
-			if cur == last {
-				stable++
-			} else {
-				stable = 0
-			}
-			last = cur
-		}
+		s.Quiesce(5 * time.Second)
 		s.Drain()
 		// oracle
 		okSubs := map[string]int{}
@@ -393,6 +382,9 @@ func c16cBody(c *run.Ctx) {
 			// hand the driver the state the engine is waiting at now
 			s.SkipAct = true
 			if st := s.TE.GetTable().State; st.GameState != nil && st.Status == pokertable.TableStateStatus_TableGamePlaying {
+				s.Quiesce(5 * time.Second)
+				s.Drain()
+				s.DropBacklog()
 				s.PushSnapshot()
 			} else {
 				// the burst ended the hand (e.g. the decisive fold was among the submissions): its
